@@ -348,6 +348,24 @@ fn main() {
                 json_str(st, &mut js);
                 let _ = write!(js, ",\"{:016x}\"]", vp_xref::scalar::string_to_number(st).to_bits());
             }
+            // arguments of round(): [hex bits in, hex bits out]
+            js.push_str("],\"rnd\":[");
+            let mut seen_r: Vec<u64> = Vec::new();
+            for x in &trace.rounded {
+                if seen_r.contains(&x.to_bits()) || seen_r.len() >= 40 {
+                    continue;
+                }
+                if !seen_r.is_empty() {
+                    js.push(',');
+                }
+                seen_r.push(x.to_bits());
+                let _ = write!(
+                    js,
+                    "[\"{:016x}\",\"{:016x}\"]",
+                    x.to_bits(),
+                    vp_xref::scalar::xpath_round(*x).to_bits()
+                );
+            }
             // number literals as spelled: [text, hex bits of the reference value]
             js.push_str("],\"lit\":[");
             for (k, tok) in vp_xref::parse::number_tokens(&spelled).unwrap().iter().enumerate() {
